@@ -3,13 +3,13 @@
 #   tools/try_mutant.sh seeded/<id> [--budget S] C01 C12 ...
 # Prints one line per check: <check> exit=<code> and the VIOLATION lines. /repo is left clean.
 set -u
-D="$1"; shift
+D="$(realpath "$1")"; shift
 BUDGET=60
 if [ "${1:-}" = "--budget" ]; then BUDGET="$2"; shift 2; fi
 cd /verif
 if [ -n "$(git -C /repo status --porcelain --untracked-files=no)" ]; then echo "/repo has uncommitted changes; refusing" >&2; exit 2; fi
 git -C /repo apply "$D/patch.diff" || { echo "patch does not apply" >&2; exit 2; }
-trap 'git -C /repo checkout -- . ; echo "[/repo restored]"' EXIT
+trap 'git -C /repo checkout -- . ; echo "[/repo restored; rebuilding]"; /verif/build.sh sim tsan asan > /dev/null 2>&1' EXIT
 for c in "$@"; do
   out=$(./check "$c" --tier quick --budget "$BUDGET" 2>&1)
   code=$?
